@@ -164,6 +164,42 @@ for depth in range(0, 4 if THOROUGH else 3):
             if s3.frames:
                 leg.violation(key, "an exhausted coroutine still yields frames")
 
+if PROP == "C03":
+    # a chain that ends in a plain iterator which is FALSY at that suspension point: it is still the leaf
+    class Countdown:
+        def __init__(s, n): s.n = n
+        def __len__(s): return s.n
+        def __iter__(s): return s
+        def __next__(s):
+            if s.n == 0: raise StopIteration
+            s.n -= 1; return s.n
+        def __await__(s): return s
+    for how in ("yield-from", "await"):
+        cd = Countdown(1)
+        if how == "yield-from":
+            def g():
+                yield from cd
+            x = g()
+        else:
+            async def co(): await cd
+            x = co()
+        x.send(None)
+        leg.case(("falsy-leaf", how), True)
+        st = stackscope.extract(x)
+        if st.leaf is not cd:
+            leg.violation(("falsy-leaf", how), f"leaf is {st.leaf!r}, expected the (falsy, len 0) iterator that ends the chain")
+    # a long legitimate chain (more unwrap steps than the no-progress guard) is not truncated
+    async def deep(n):
+        if n == 0: await trap()
+        else: await deep(n - 1)
+    for n in (60, 130):
+        c = deep(n); c.send(None)
+        leg.case(("long-chain", n), True)
+        st = stackscope.extract(c)
+        if len(st.frames) != n + 2 or st.error is not None:
+            leg.violation(("long-chain", n), f"chain of {n + 2} frames extracted as {len(st.frames)} frames, error={st.error!r}")
+        c.close()
+
 if PROP == "C16":
     # (a) outermost frame suspended inside a manager's __aexit__
     class SlowExit:
